@@ -309,16 +309,20 @@ func checkC10(p *Prog, r *Report) {
 				})
 				r.Check(!nilOutside, "taskloop.Run: success only after the task ran", p.Pos(run.Body.Pos()), "nil is returned only on the send path", "Run reports success on a path where the task was never handed to the loop")
 				// early closed check
+				// the select (and so the send) is reached only where l.Err() was nil
 				first := false
-				if len(run.Body.List) > 0 {
-					if is, ok := run.Body.List[0].(*ast.IfStmt); ok && is.Init != nil {
-						if as, ok := is.Init.(*ast.AssignStmt); ok {
-							if c, ok := unparen(as.Rhs[0]).(*ast.CallExpr); ok && p.CalleeName(c) == "taskloop.Loop.Err" {
-								first = true
+				walkBody(run, func(n ast.Node) bool {
+					if snd, ok := n.(*ast.SendStmt); ok && p.IsField(snd.Chan, "taskloop.Loop.tasks") {
+						first = factListHas(p.DominatingFactList(run, snd), func(ft Fact) bool {
+							if ft.Op != "==" || !ft.Val || !p.isNilExpr(ft.Y) {
+								return false
 							}
-						}
+							c, _, ok := p.ResolveCall(run, ft.X)
+							return ok && p.CalleeName(c) == "taskloop.Loop.Err"
+						})
 					}
-				}
+					return true
+				})
 				r.Check(first, "taskloop.Run: closed loop refuses at once", p.Pos(run.Body.Pos()), "if err := l.Err(); err != nil { return err } first", "Run does not test for a closed loop first: with a cancelled context and a closed loop the wrong error is reported / a task may be accepted after Close")
 			}
 		}
